@@ -33,6 +33,7 @@ GROUPS = [
     pg('rev', 'h_rev', ['qstrrev'], ['qstrrev']),
     pg('unchar', 'h_unchar', ['qstrunchar']),
     pg('copy', 'h_copy', ['qstrcpy', 'qstrncpy']),
+    pg('gets', 'h_gets', ['qstrgets'], ['qstrgets']),
     sg('trim', 'h_trim', ['qstrtrim', 'qstrtrim_head', 'qstrtrim_tail'], [3, 6], [8]),
     sg('case_rev_unchar', 'h_case_rev_unchar', ['qstrupper', 'qstrlower', 'qstrrev', 'qstrunchar'], [3, 6], [8]),
     sg('copy', 'h_copy', ['qstrcpy', 'qstrncpy'], [2, 5], [7]),
